@@ -6,6 +6,7 @@ CONSTANTS
   MaxAtt = 2
   MaxDisc = 0
   MaxSubs = 1
+  Sequential = FALSE
   Timeouts = FALSE
   Limits <- NoLimits
   Affs <- NoAffs
